@@ -20,6 +20,10 @@ def main(tier):
               'numpy linear algebra')
     rep.gaps.append('crystals outside the catalogue; the subgroup enumeration is exhaustive for Oh and D6h (3D) and D4, D6, D2 (2D) in the listed orientations only')
     rep.extra['exhaustive'] = False
+    from contracts import vectlist_sx
+    vectlist_sx.run(rep)      # contract of Crystal.vectlist (orthonormal frame of a site's vector basis), symbolic, every unit vector, both branches
+    from contracts import fresh_c
+    fresh_c.run(rep, contracts=fresh_c.VECTORBASIS_CONTRACTS, class_fields=[])
     return finish(rep, 'exploration',
                   'Run-time contracts: point groups fix their site, Wyckoff sets equal brute-force orbits, Wyckoffpos is the complete orbit, and the '
                   'vector / symmetric-tensor bases are orthonormal, invariant and of the dimension given by the character formula -- for every site of '
